@@ -31,6 +31,7 @@ type c05X struct {
 	Stall         int  // 1+index of the chunk inside whose payload the client pauses for longer than ReadTimeout (0: none)
 	StallAccepted bool // that chunk is one the server accepts (otherwise its payload is being discarded)
 	Early         bool // the backend refuses the message after reading only a part of it (lock-step; only the resumption of commands is judged)
+	Paced         bool // timing stratum: pipelined envelope, slow Rcpt callbacks, the first chunk finished 5 s after the server got to it
 }
 
 func c05Payload(t *Tape, n int, maxLine int, nb *int) []byte {
@@ -267,8 +268,51 @@ func genC05(t *Tape, tier string) *Scenario {
 		Step{Kind: kMarker, Data: line("MAIL FROM:<ok-marker@a.example>"), Wait: w(), Tag: "mail"},
 		Step{Kind: kQuit, Data: []byte("QUIT\r\n"), Wait: w()})
 	x.Expect = append(x.Expect, "250", "250", "221")
+	if c0 := x.Chunks[0]; x.Stall == 0 && !x.Early && x.State == 0 && c0.Form == 0 && !c0.Last && len(c0.Payload) >= 2 && sc.Srv.ReadTO == 0 && t.Chance(1, 10) {
+		// timing stratum: MAIL, RCPT and the first BDAT line arrive in one segment together
+		// with the beginning of the chunk, every Rcpt callback takes 7 s, and the rest of the
+		// chunk comes 5 s after the server has got to it. ReadTimeout is 10 s: the time a
+		// callback takes is not the client's, nothing is late.
+		iB := -1
+		for i := range steps {
+			if steps[i].Kind == kBdat {
+				iB = i
+				break
+			}
+		}
+		if iB > 0 && steps[iB+1].Kind == kPayload {
+			x.Paced = true
+			sc.Srv.ReadTO = 10 * time.Second
+			sc.BE.Conns[0].ParkRcpt = 7 * time.Second
+			pend, nrep := 0, 0
+			for i := 2; i <= iB; i++ {
+				nrep += steps[i].Wait
+				steps[i].Glue, steps[i].Wait = true, 0
+				pend += len(steps[i].Data)
+			}
+			p := &steps[iB+1]
+			p.Segs = []int{pend + 1 + t.Intn(len(c0.Payload)-1), pend + len(c0.Payload)}
+			p.Gaps = []Dur{0, Dur(7*x.NRcpt+5) * time.Second}
+			if lock {
+				p.Wait += nrep
+			}
+			// nobody else takes time: no other pauses on the client's side, and the backend
+			// reads without pauses
+			for i := range steps {
+				if i != iB+1 {
+					steps[i].Gaps = nil
+				}
+			}
+			for i := range sc.BE.Conns[0].Data {
+				sc.BE.Conns[0].Data[i].ParkReads, sc.BE.Conns[0].Data[i].ParkAfter = nil, 0
+			}
+		}
+	}
 	// the last glued step must flush
 	cs := ConnScript{Lat: drawLat(t), SrvCaps: drawCaps(t), Steps: steps}
+	if x.Paced {
+		cs.SrvCaps = nil
+	}
 	cs.defaults()
 	sc.Conns = []ConnScript{cs}
 	sc.Strata = []string{fmt.Sprintf("state%d/limit%v/lock%v", x.State, overLimit, lock)}
@@ -415,6 +459,9 @@ func classifyC05(sc *Scenario, h *History, st *Stats) string {
 			st.Faults["backend_refuses_with_a_part_of_the_chunk_unread"]++
 		}
 	}
+	if x.Paced {
+		st.Probes["pipelined_envelope_slow_callbacks_chunk_paced_within_ReadTimeout"]++
+	}
 	if x.Stall > 0 {
 		if x.StallAccepted {
 			st.Faults["client_stalls_past_read_deadline_inside_accepted_chunk"]++
@@ -487,7 +534,7 @@ func longestRun(b []byte) int {
 func init() {
 	register(&Property{
 		ID: "C05", Level: "exploration",
-		Rule:     "a message cut into 1-5 BDAT chunks (sizes 0..9000, LAST on any, none or the final chunk, well-formed / bad LAST token / non-numeric, negative or 64-bit-overflowing size / too many arguments) in session states {valid envelope, no MAIL, every RCPT rejected} and with MaxMessageBytes below or around the total; payloads mix text, CRLF.CRLF, bait commands, binary, leading dots and LF-free runs around and above MaxLineLength; a NOOP marker after every chunk, then RSET, a MAIL marker and QUIT; lock-step or fully pipelined with drawn segmentation (BDAT line glued to its payload, next command glued to the payload's tail). Expected replies come from a small reference chunk framer. Non-trivial: zero-size chunk, payload with end marker/bait/over-limit run, malformed or refused BDAT; distinct by (state, chunk forms/sizes/payload classes, limit, mode, discipline). Fault stratum: the client pauses past ReadTimeout inside a chunk (accepted or being discarded) whose tail reads MAIL/RCPT/NOOP.",
+		Rule:     "a message cut into 1-5 BDAT chunks (sizes 0..9000, LAST on any, none or the final chunk, well-formed / bad LAST token / non-numeric, negative or 64-bit-overflowing size / too many arguments) in session states {valid envelope, no MAIL, every RCPT rejected} and with MaxMessageBytes below or around the total; payloads mix text, CRLF.CRLF, bait commands, binary, leading dots and LF-free runs around and above MaxLineLength; a NOOP marker after every chunk, then RSET, a MAIL marker and QUIT; lock-step or fully pipelined with drawn segmentation (BDAT line glued to its payload, next command glued to the payload's tail). Expected replies come from a small reference chunk framer. Non-trivial: zero-size chunk, payload with end marker/bait/over-limit run, malformed or refused BDAT; distinct by (state, chunk forms/sizes/payload classes, limit, mode, discipline). Fault stratum: the client pauses past ReadTimeout inside a chunk (accepted or being discarded) whose tail reads MAIL/RCPT/NOOP. Timing stratum: envelope, first BDAT line and the beginning of the chunk in one segment, Rcpt callbacks of 7 s each, the rest of the chunk 5 s after the server got to it, ReadTimeout 10 s - nothing is late.",
 		Gen:      genC05,
 		Check:    checkC05,
 		Classify: classifyC05,
@@ -509,7 +556,7 @@ func init() {
 		Real:        []string{"smtp.Server.Serve/handleConn", "smtp.Conn.handleBdat and delivery goroutine", "lineLimitReader", "io.Pipe", "net/textproto", "bufio"},
 		Stub:        []string{"net.Listener (SimListener)", "net.Conn (SimConn)", "Backend/Session/LMTPSession (SimBackend)", "clock (synctest)", "SMTP client (raw driver)"},
 		Assumptions: []string{"a BDAT without a usable size declares nothing to skip: no payload is sent after it and only its single reply and the next marker are judged", "refusal replies are judged to be 5xx, not for their exact code"},
-		Required:    []string{"bdat_line_and_over_limit_run_in_one_segment", "bdat_refused_without_envelope", "zero_size_chunk", "payload_contains_bait_command", "payload_contains_end_marker", "over_limit_chunk_aborts_transfer", "malformed_bdat", "client_stalls_past_read_deadline_inside_accepted_chunk", "client_stalls_past_read_deadline_inside_refused_chunk", "backend_refuses_with_a_part_of_the_chunk_unread"},
+		Required:    []string{"pipelined_envelope_slow_callbacks_chunk_paced_within_ReadTimeout", "bdat_line_and_over_limit_run_in_one_segment", "bdat_refused_without_envelope", "zero_size_chunk", "payload_contains_bait_command", "payload_contains_end_marker", "over_limit_chunk_aborts_transfer", "malformed_bdat", "client_stalls_past_read_deadline_inside_accepted_chunk", "client_stalls_past_read_deadline_inside_refused_chunk", "backend_refuses_with_a_part_of_the_chunk_unread"},
 		QuickRuns:   120000, ThoroughRuns: 3000000,
 	})
 }
